@@ -401,7 +401,9 @@ def run_program(exe, src, workdir, timeout=900):
     for name, text in files.items():
         with open(os.path.join(workdir, name), 'w') as f:
             f.write(text)
-    env = dict(os.environ, CARGO_NET_OFFLINE='true', RUST_BACKTRACE='0', NO_COLOR='1')
+    # one shared cargo target directory for all generated projects: the runtime crates are compiled once, not per program
+    shared = os.path.join(os.path.dirname(os.path.abspath(workdir)), 'diffrun-target')
+    env = dict(os.environ, CARGO_NET_OFFLINE='true', RUST_BACKTRACE='0', NO_COLOR='1', CARGO_TARGET_DIR=shared)
     p = subprocess.run([exe, 'runfile', 'prog.incn'], cwd=workdir, capture_output=True, text=True, timeout=timeout, env=env)
     return p.returncode, p.stdout, p.stderr
 
@@ -482,8 +484,7 @@ def run(pid, exe, build_dir, programs, n, base_seed=0):
             return total, v
     # error behaviour: one case per quick run (rotating with the seed), all of them in a thorough run
     if pid in ERROR_CASES:
-        # quick: the first case and the last one (the most recently added shape); thorough: all of them
-        cases = range(len(ERROR_CASES[pid])) if programs > 2 else sorted({(base_seed // 100) % len(ERROR_CASES[pid]), len(ERROR_CASES[pid]) - 1})
+        cases = range(len(ERROR_CASES[pid]))      # (cheap with the shared target directory: all of them on every run)
         for c in cases:
             v = check_error_program(exe, pid, c, os.path.join(build_dir, f'diffrun_{pid}_err'))
             total += 1
